@@ -611,7 +611,7 @@ def _check_embed(kind, A4, B4=None):
                 return {"what": "product not mapped to product"}
         if not np.allclose(_real_embed(kind, rt.qH(A4)), got.T):
             return {"what": "conjugate transpose not mapped to transpose"}
-        if abs(np.linalg.norm(got) - 2 * rt.fro(A4)) > 1e-12 * max(1, rt.fro(A4)):
+        if not (abs(np.linalg.norm(got) - 2 * rt.fro(A4)) <= 1e-12 * max(1, rt.fro(A4))):
             return {"what": "norm not scaled by 2"}
         return None
     if kind == "adjoint":
@@ -627,7 +627,7 @@ def _check_embed(kind, A4, B4=None):
             return {"what": "product not mapped to product"}
         if not np.allclose(_real_embed(kind, rt.qH(A4)), got.conj().T):
             return {"what": "conjugate transpose not mapped to conjugate transpose"}
-        if abs(np.linalg.norm(got) - np.sqrt(2) * rt.fro(A4)) > 1e-12 * max(1, rt.fro(A4)):
+        if not (abs(np.linalg.norm(got) - np.sqrt(2) * rt.fro(A4)) <= 1e-12 * max(1, rt.fro(A4))):
             return {"what": "norm not scaled by sqrt 2"}
         return None
     if kind == "roundtrip":
